@@ -59,6 +59,36 @@ pub fn check_uncompact(run: &mut Run, list: &[MCell], target: i32) {
                     return;
                 }
             }
+            // the same list with some cells written in an accepted non-canonical spelling (one stray bit below the marker): the
+            // library reads such a word as the same cell, so - where it answers at all - it must return the same descendants
+            if h % 6 == 0 {
+                let mut arng = Rng::stream(h, "C09.alias", 0);
+                let mut ids2 = ids.clone();
+                let mut changed = 0;
+                for (k, c) in list.iter().enumerate() {
+                    if arng.chance(0.5) {
+                        if let Some(w) = stray_alias(&mut arng, *c) {
+                            ids2[k] = w;
+                            changed += 1;
+                        }
+                    }
+                }
+                if changed > 0 {
+                    run.count("alias_spellings.lists");
+                    if let Ok(v2) = uncompact(&ids2, target) {
+                        run.count("alias_spellings.answered");
+                        if v2 != v {
+                            let at = v2.iter().zip(v.iter()).position(|(a, b)| a != b);
+                            run.violation(
+                                "C09.alias_spelling",
+                                json!({"ids": ids_json(&ids2), "canonical_ids": ids_json(&ids), "target": target}),
+                                format!("uncompact accepts non-canonical spellings of {changed} of the cells but returns other cells than for the canonical ids (first difference at output {:?}, lengths {} / {})", at, v2.len(), v.len()),
+                            );
+                            return;
+                        }
+                    }
+                }
+            }
             run.countn("cells_returned", v.len() as u64);
             if list.len() >= 2 && v.len() > list.len() && run.wants_sample("uncompact") {
                 run.sample("uncompact", || json!({"ids": ids_json(&ids), "target": target, "returned": v.len()}));
